@@ -52,9 +52,11 @@ def insertSorted (t : Tr) : List Tr → List Tr
   | [] => [t]
   | x :: r => if t.key < x.key || (t.key == x.key && showAct t.act < showAct x.act) then t :: x :: r else x :: insertSorted t r
 
+/-- tracked reads are only counted (the real tracker sees their key through an aliased slot pointer) -/
 def showTracked (ts : List Tr) : String :=
-  let sorted := ts.foldl (fun acc t => insertSorted t acc) []
-  if sorted.isEmpty then "-" else ",".intercalate (sorted.map fun t => s!"{t.key}:{showAct t.act}:{t.verInDB}")
+  let sorted := (ts.filter (fun t => t.act != .get)).foldl (fun acc t => insertSorted t acc) []
+  let gets := (ts.filter (fun t => t.act == .get)).length
+  ",".intercalate (sorted.map (fun t => s!"{t.key}:{showAct t.act}:{t.verInDB}") ++ [s!"gets*{gets}"])
 
 def showRes : Res → String
   | .ok => "ok" | .aborted => "aborted" | .errMerge => "err:merge" | .errItemLock => "err:itemlock"
@@ -131,6 +133,7 @@ def step (st : St) (ws : List String) : St × String :=
       let s2 := rootFinish st.s i
       ({ st with s := s2 }, showW0 (s2.ws i))
   | ["dump"] => (st, showDump st.s)
+  | ["dumpc"] => (st, s!"count={st.s.count}")
   | _ => (st, "bad-op")
 
 /-- `--legacy` runs the model of the unrepaired `refetchAndMergeClosure` -/
